@@ -82,6 +82,7 @@ def write_layout(path, model, rng, version="0.62.7", identifier=True, internal_b
                 elif feat == "frame":
                     arr = arr.astype(np.uint64)
                 if (arr.ndim == 1 and arr.dtype.kind == "f" and len(arr) >= 4
+                        and not feat.startswith("ml_score")     # probabilities: range [0, 1]
                         and rng.random() < 0.12):
                     # pre-allocated dataset with a non-default fill value whose trailing
                     # chunks were never written (reads as the fill value)
